@@ -59,6 +59,9 @@ def run_impl(cases):
     return out
 
 
+extra_coverage = C.T.with_trace_coverage()      # observed branch traces of the call layer (_calltrace_common)
+
+
 def judge_call(case, impl, model):
     corr, why = C.correspondence(case, impl, model)
     s = model['spec']
@@ -100,3 +103,6 @@ def twins(case):
 
 
 export_state, import_state = K.export_state, K.import_state      # the name table travels with replays / amplified runs
+
+
+same_outcome = C.same_outcome      # amplified run: `trace` / `world` are diagnostics of sampled executions
